@@ -23,9 +23,9 @@ import (
 )
 
 type c22Case struct {
-	Mode      string         `json:"mode"` // enum | coop
-	ICE       []int          `json:"ice,omitempty"`  // ICETransportState values delivered in order
-	DTLS      []int          `json:"dtls,omitempty"` // DTLSTransportState values set in order; an update follows the last one
+	Mode      string         `json:"mode"`                // enum | coop
+	ICE       []int          `json:"ice,omitempty"`       // ICETransportState values delivered in order
+	DTLS      []int          `json:"dtls,omitempty"`      // DTLSTransportState values set in order; an update follows the last one
 	DTLSEach  bool           `json:"dtls_each,omitempty"` // update after every DTLS change instead of only the last
 	Close     bool           `json:"close,omitempty"`
 	SchedSeed uint64         `json:"sched_seed"`
@@ -140,8 +140,8 @@ func c22Run(t *testing.T, cj []byte, res *vfResult) {
 		return
 	}
 	var mu sync.Mutex
-	var handled []string  // handler invocations (execution order)
-	var sampled []string  // distinct consecutive values of the stored state seen by the sampler
+	var handled []string // handler invocations (execution order)
+	var sampled []string // distinct consecutive values of the stored state seen by the sampler
 	var trace []simrt.Step
 	outcome := ""
 	var unfinished []string
